@@ -112,7 +112,7 @@ CLAIMED = {
          "refused when not Active; local Close -> ClosedByUs; the peer's Close after ours -> CloseAcked; unexpected EOF -> "
          "1006 + Terminated. The model is compared with the real Stream on sampled sequences of length 2-4 over 16 peer "
          "events x 13 local calls from 5 start states and random sessions; the extracted RFC session oracle judges wire, "
-         "State() and refusals independently."),
+         "State() and refusals independently. AsyncClose with the Close frame's flush deferred (real adapter on a loopback socket, the C17 driver and model) followed by writes / a second close before the poll is run as well."),
    note="Trusted: Coq kernel, translator (constants, opcode predicates, ValidCloseCode), extraction, harness incl. the in-memory transport and the VerifAttach hook (client role after the handshake). Masking keys are an environment input taken from the implementation's wire. UTF-8 validation of text payloads (off by default), the server role and TLS are not modelled. Real sockets and event-loop interleavings are C17's/C01's subject.",
    technique="Coq invariant proofs by induction over histories (close-frame invariant, wire = queue order) + state-machine lemmas; differential correspondence + extracted oracle"),
  "C15": dict(
@@ -134,20 +134,20 @@ CLAIMED = {
          "wire is, in submission order and frame by frame, what was queued, and after a flush nothing is left; a message "
          "above the maximum is refused without writing anything. The model is compared with the real Stream for sizes "
          "0..70001 in shuffled order (pool reuse after longer and shorter frames), caller-built frames with/without "
-         "SetPayload, sync/async, transports accepting 1/7/all bytes per call, failure at every offset; every wire frame "
+         "SetPayload (also set twice on one frame), sync/async, transports accepting 1/7/all bytes per call, failure at every offset; every wire frame "
          "is re-parsed and un-masked by the extracted oracle."),
    note="Trusted: Coq kernel, translator (constants, opcode predicates, ValidCloseCode), extraction, harness incl. the in-memory transport and the VerifAttach hook (client role after the handshake). Masking keys are an environment input taken from the implementation's wire. UTF-8 validation of text payloads (off by default), the server role and TLS are not modelled. Real sockets and event-loop interleavings are C17's/C01's subject.",
    technique="Coq proof (round-trip law + wire invariant by induction over histories); differential correspondence + extracted parser oracle"),
  "C01": dict(
-   text=("PARTIAL proof + full correspondence. Coq theorems (5, closed) about the hand-written model of file.go / "
+   text=("PARTIAL proof + full correspondence. Coq theorems (7, closed) about the hand-written model of file.go / "
          "internal/poll_linux.go / io.go (work-list machine; the epoll batch is an input, so all batches, masks and handler "
          "programs are quantified over): a batch entry for an object without interest dispatches nothing and changes "
          "nothing (never twice); Close leaves no interest and invokes nothing; every system-call attempt ends in exactly "
          "one completion or a re-arm; a deferred read reported with IN, HUP or ERR is dispatched by that poll (never zero "
          "times - FIFO hang-up with only a read interest included); Cancel completes the in-flight read once with the "
-         "cancellation error. The whole-history statement (exactly one callback per started operation, none after Close) "
+         "cancellation error (an EPERM-class error when the descriptor was closed underneath and epoll refuses the call); over ALL histories of script lines a closed object keeps no interest, so no later batch entry invokes a callback of it. The whole-history statement (exactly one callback per started operation, none after Close) "
          "is the extracted ledger oracle Spec/OpLedger.v, applied to the model's and to the implementation's trace of "
-         "every script (sockets, FIFO read/write ends, regular files; several ready descriptors per batch; handlers that "
+         "every script (sockets, FIFO read/write ends, regular files, listeners, descriptors closed underneath the object; several ready descriptors per batch; handlers that "
          "re-issue, cancel, close or re-arm their own or another object; peer data/close/RST/hang-up; inline and deferred "
          "paths); the model is compared with the real loop after every script line (callbacks with error class, byte "
          "count and depth, Pending(), Dispatched, interest bits, registry membership, the batch itself)."),
@@ -157,7 +157,7 @@ CLAIMED = {
    technique="Coq proof of the per-step dispatch lemmas over all batches and handler programs; differential correspondence + extracted exactly-once ledger oracle over histories"),
  "C03": dict(
    text=("Coq theorems (4, closed): for every script, every handler program, every poll batch and every peer behaviour - "
-         "registrations that fail included - Pending() = registered read/write interests + armed timers + posted handlers "
+         "registrations that fail included (not pollable, or descriptor closed underneath the object with the other direction in flight) - Pending() = registered read/write interests + armed timers + posted handlers "
          "not yet run, after every script line (induction over lines and over the work-list machine inside a line: the "
          "machine never changes the difference). Return values of PollOne/RunOneFor/RunPending (positive count iff a "
          "handler ran, timeout when nothing was ready, RunPending returns exactly at zero) are decided on the "
@@ -175,7 +175,7 @@ CLAIMED = {
          "disturbing anything; a closed timer stays closed under Cancel. The implementation is compared with the model "
          "on scripts with several timers and I/O objects ready in one batch, cancel/close/re-schedule from other "
          "handlers, repeating timers cancelled from their own callback; the ledger oracle checks callback counts per "
-         "schedule and wall-clock 'never early' on the real trace."),
+         "schedule, wall-clock 'never early', and that an armed timer is not more than 30 ms overdue after a poll that had the time to see it, on the real trace."),
    note="Trusted: Coq kernel, extraction, harness, environment model of timerfd (expiry = arm time + delay; readable iff expired). Real-time lateness is not bounded by anything.",
    technique="Coq proof (per-transition theorems over all batches) + differential correspondence + extracted ledger oracle"),
  "C14": dict(
@@ -273,7 +273,7 @@ CLAIMED = {
          "a loopback socket: every ordering of {ping, write, poll, message} sequences up to length 5 after a read, random "
          "longer scripts with frames up to 60000 bytes; callbacks after every call and the frames the peer received are "
          "compared with the model and judged by an independent oracle (exactly-once, nothing dropped once settled, whole "
-         "frames in order)."),
+         "frames in order; AsyncClose with its flush in flight refuses later writes and closes)."),
    note=("Trusted: Coq kernel, extraction, harness. Frames are opaque in this model (format: C16); message reassembly and the "
          "closing handshake are C06/C08; 'a read in flight is always armed or waiting for a flush' is not stated as an "
          "invariant; real partial writes occur only for large frames (kernel-chosen), where only final outcomes are compared."),
